@@ -155,6 +155,9 @@ func run() (*Report, error) {
 			if !astutil.UsesImport(f, "os") {
 				astutil.DeleteImport(pkg.Fset, f, "os")
 			}
+			if !astutil.UsesImport(f, "time") {
+				astutil.DeleteImport(pkg.Fset, f, "time")
+			}
 			// Free-floating comments would be interleaved with the inserted,
 			// position-less statements by the printer; drop everything except
 			// directives and the comments above the package clause.
@@ -380,6 +383,16 @@ func (rw *rewriter) call(n *ast.CallExpr) {
 	sel, ok := n.Fun.(*ast.SelectorExpr)
 	if !ok {
 		return
+	}
+	// time.Sleep of the code under test: sleeps without the token
+	if id, ok := sel.X.(*ast.Ident); ok && sel.Sel.Name == "Sleep" && *flagBlocking {
+		if pn, ok := rw.info.Uses[id].(*types.PkgName); ok && pn.Imported().Path() == "time" {
+			sid := rw.site("sleep", n.Pos(), "")
+			n.Fun = &ast.SelectorExpr{X: ast.NewIdent(simrtName), Sel: ast.NewIdent("Sleep")}
+			n.Args = append([]ast.Expr{lit(sid)}, n.Args...)
+			rw.used = true
+			return
+		}
 	}
 	// os.Open seam
 	if id, ok := sel.X.(*ast.Ident); ok && sel.Sel.Name == "Open" {
